@@ -1915,7 +1915,8 @@ impl Parser {
                 }
                 Some((_, Token::Operator(Operator::BraceLeft))) => {
                     let block = self.parse_block_stmt()?;
-                    self.expect(Operator::SemiColon)?;
+                    // if x {} else {} } with no semicolon
+                    self.skipped(Operator::SemiColon)?;
                     Ok(ast::Statement::Block(block))
                 }
                 _ => Err(self.else_error("expect else or if statement")),
